@@ -44,6 +44,25 @@ def exc_site(ex):
             break
     return '%s@%s:%s' % (type(ex).__name__, where, msg)
 
+def default_args_issue(ins, affs):
+    """the documented observation point get_instr_expr(instr, next_eip) (operand list left to its default) gives, call after call, the
+       assignments of the explicit three-argument form"""
+    from miasmx.tools import emul_helper
+    from miasmx.tools.modint import uint32
+    from miasmx.expression.expression import ExprInt
+    import contextlib, io
+    nxt = ExprInt(uint32((ins.offset + ins.l) & 0xffffffff))
+    want = [str(a) for a in affs]
+    try:
+        with contextlib.redirect_stdout(io.StringIO()):
+            for k in (1, 2):
+                got = [str(a) for a in emul_helper.get_instr_expr(ins, nxt)]
+                if got != want:
+                    return [('default-args', 'differs', 'call %d of get_instr_expr(instr, next_eip) returns %s, the explicit operand list form %s' % (k, got[:3], want[:3]))]
+    except Exception as ex:
+        return [('default-args', exc_site(ex), 'get_instr_expr(instr, next_eip) raised %s: %s' % (type(ex).__name__, str(ex)[:150]))]
+    return []
+
 def check_instance(ins, solver=True):
     """returns list of (clause, site, message)"""
     from specs import irwf
@@ -52,6 +71,7 @@ def check_instance(ins, solver=True):
     except Exception as ex:
         return [('noraise', exc_site(ex), 'get_instr_expr raised %s: %s' % (type(ex).__name__, str(ex)[:200]))]
     issues, pending = irwf.wf_list(affs)
+    issues = list(issues) + default_args_issue(ins, affs)
     if pending and solver:
         import z3
         from liftvc import den as D
